@@ -111,7 +111,15 @@ func init() {
 		if err != nil {
 			return []string{"err"}
 		}
-		return []string{"ok", dbArg(db), hx(db.Bytes())}
+		// the encoding is taken, then another database is encoded, then the first result is looked at
+		enc := db.Bytes()
+		if earlierDB != nil {
+			earlierDB.Bytes()
+		}
+		if len(in) < 20000 {
+			earlierDB = &db
+		}
+		return []string{"ok", dbArg(db), hx(enc)}
 	}
 	// a history of database operations; one observation per step
 	implOps["db_history"] = func(a []string) []string {
@@ -273,6 +281,8 @@ func sigFixtures() map[string][]byte {
 	}
 	return out
 }
+
+var earlierDB *signature.SignatureDatabase
 
 func decodeEntries(rng *rand.Rand) string {
 	return pick(rng, []string{"read", "read", "unmarshal", "unmarshal", "readlist", "readlist", "read-onebyte", "read-half", "read-dataerr"})
